@@ -79,3 +79,59 @@ m('c11_batched_commit', 'C11', 'datastore.py',
   "            conn = self._bconn\n            c = conn.cursor()\n\n            # data\n            try:\n"
   "                c.execute(self.sql_individuals_upsert, [individual.id, json.dumps(individual.to_dict())])\n"
   "                self._bn += 1\n                if self._bn % 4 == 0:\n                    conn.commit()\n")
+
+# ---------------------------------------------------------------- C09
+m('c09_nsga2_extra_generation', 'C09', 'algorithm_NSGAII.py', "for it in range(self.options['max_population_number']-1):",
+  "for it in range(self.options['max_population_number']):")
+m('c09_truncate_n_minus_1', 'C09', 'algorithm_NSGAII.py',
+  "individuals = nondominated_truncate(offsprings, self.options['max_population_size'])",
+  "individuals = nondominated_truncate(offsprings, max(1, self.options['max_population_size'] - (1 if it % 3 == 2 else 0)))")
+m('c09_half_parent_copies', 'C09', 'algorithm_NSGAII.py',
+  "            for individual in individuals:\n                offsprings.append(individual.copy())",
+  "            for individual in individuals[::2]:\n                offsprings.append(individual.copy())")
+m('c09_accept_dominated', 'C09', 'operators.py', "        elif not dominated:\n            individuals.remove(random.choice(individuals))",
+  "        elif not dominated or len(individuals) > 6:\n            individuals.remove(random.choice(individuals))")
+m('c09_epsmoea_loop_short', 'C09', 'algorithm_genetic.py', "        for it in range(self.options['max_population_number']):\n            # generate and evaluate the next generation",
+  "        for it in range(max(1, self.options['max_population_number'] - (self.options['max_population_number'] > 3))):\n            # generate and evaluate the next generation")
+m('c09_generate_dedup_shrinks', 'C09', 'algorithm_genetic.py',
+  "        return offsprings\n\n    def run(self):\n        pass",
+  "        return offsprings if len(parents) < 7 else offsprings[:-1]\n\n    def run(self):\n        pass")
+
+# ---------------------------------------------------------------- C08
+# (removing the clip of PmMutator.pm_mutation alone is an equivalent mutant: Deb's bounded polynomial mutation stays inside
+#  [lb, ub] by construction up to a few ulp, which the C08 tolerance absorbs - measured: 18 000 runs clean)
+m('c08_pm_wrong_delta_no_clip', 'C08', 'operators.py', "        delta2 = (ub - x) / dx\n", "        delta2 = (ub - x) / dx * 1.5\n")
+m('c08_sbx_no_clip_c1', 'C08', 'operators.py', "                        c1 = self.clip(c1, lb, ub)\n", "")
+m('c08_sbx_no_clip_c2', 'C08', 'operators.py', "                        c2 = self.clip(c2, lb, ub)\n", "")
+m('c08_omopso_no_lower_branch', 'C08', 'algorithm_swarm.py',
+  "                # adjust minimum position if necessary\n                if individual.vector[i] < parameter['bounds'][0]:\n"
+  "                    individual.vector[i] = parameter['bounds'][0]\n                    individual.features['velocity'][i] *= -1\n\n"
+  "    def update_global_best(self, swarm):\n        \"\"\" Manages the leader class in OMOPSO. \"\"\"\n\n        # the fitness of the particles are calculated by their crowding distance\n\n        # crowding_distance(swarm)",
+  "    def update_global_best(self, swarm):\n        \"\"\" Manages the leader class in OMOPSO. \"\"\"\n\n        # the fitness of the particles are calculated by their crowding distance\n\n        # crowding_distance(swarm)")
+m('c08_uniform_mutation_clip_swapped', 'C08', 'operators.py',
+  "        x = x + (random.random() - 0.5) * self.perturbation\n        x = self.clip(x, lb, ub)",
+  "        x = x + (random.random() - 0.5) * self.perturbation\n        x = self.clip(x, lb, ub + 1e-3 * (ub - lb))")
+m('c08_gen_number_round_up', 'C08', 'utils.py', "number = round(number / precision) * precision",
+  "number = (round(number / precision) + (1 if number > bounds[1] - 1e-4 * (bounds[1] - bounds[0]) else 0)) * precision")
+m('c08_nonuniform_no_clip', 'C08', 'operators.py',
+  "        if isinstance(x, complex):\n            print(x)\n        x = self.clip(x, lb, ub)", "        if isinstance(x, complex):\n            print(x)\n        x = max(x, lb)")
+
+# ---------------------------------------------------------------- C18
+m('c18_pbest_replace_only_if_dominating', 'C18', 'algorithm_swarm.py', "            if flag != 2:\n                particle.features['best_cost'] = particle.costs_signed",
+  "            if flag == 1:\n                particle.features['best_cost'] = particle.costs_signed")
+m('c18_pbest_wrong_direction', 'C18', 'algorithm_swarm.py', "            if flag != 2:\n                particle.features['best_cost'] = particle.costs_signed",
+  "            if flag != 1:\n                particle.features['best_cost'] = particle.costs_signed")
+m('c18_no_velocity_clamp_low', 'C18', 'algorithm_swarm.py', "        velocity = max(velocity, -delta_i)\n", "")
+m('c18_smpso_no_damping_low', 'C18', 'algorithm_swarm.py',
+  "                    individual.vector[i] = parameter['bounds'][0]\n                    individual.features['velocity'][i] *= 0.001\n",
+  "                    individual.vector[i] = parameter['bounds'][0]\n")
+m('c18_psoga_no_reversal', 'C18', 'algorithm_swarm.py',
+  "                if individual.vector[i] > parameter['bounds'][1]:\n                    individual.vector[i] = parameter['bounds'][1]\n"
+  "                    individual.features['velocity'][i] *= -1\n\n                if individual.vector[i] < parameter['bounds'][0]:",
+  "                if individual.vector[i] > parameter['bounds'][1]:\n                    individual.vector[i] = parameter['bounds'][1]\n"
+  "\n                if individual.vector[i] < parameter['bounds'][0]:")
+m('c18_leaders_truncate_n_plus_1', 'C18', 'algorithm_swarm.py',
+  "        self.leaders += swarm\n        self.leaders.truncate(self.options['max_population_size'], 'crowding_distance')\n        # self.problem.archive += swarm",
+  "        self.leaders += swarm\n        self.leaders.truncate(self.options['max_population_size'] + 1, 'crowding_distance')\n        # self.problem.archive += swarm")
+m('c18_omopso_leaders_all', 'C18', 'algorithm_swarm.py', "            if particle.features['front_number'] == 1:\n                pareto.append(particle)\n        for item in pareto:\n            self.leaders.append(item)",
+  "            if particle.features['front_number'] == 1:\n                pareto.append(particle)\n        for item in pareto:\n            self.leaders._contents.append(item)")
